@@ -1297,6 +1297,15 @@ def check_reindex_congruent(prog, rep, rels, rule='REINDEX-congruent',
                 if isinstance(d, ast.Call) and unparse(d.func) in ('np.mod', 'np.remainder') and \
                         d.args and isinstance(d.args[0], ast.Name) and d.args[0].id == b:
                     return True
+                if isinstance(d, ast.Call) and unparse(d.func) in ('np.array', 'np.asarray', 'list') \
+                        and d.args:
+                    d = d.args[0]
+                if isinstance(d, ast.ListComp) and len(d.generators) == 1 and isinstance(
+                        d.generators[0].iter, ast.Name) and d.generators[0].iter.id == b and \
+                        isinstance(d.generators[0].target, ast.Name) and isinstance(d.elt, ast.BinOp) \
+                        and isinstance(d.elt.op, ast.Mod) and isinstance(d.elt.left, ast.Name) and \
+                        d.elt.left.id == d.generators[0].target.id:
+                    return True   # [i % L for i in b]
                 return False
             base = names[0]
             for other in names[1:]:
